@@ -9,6 +9,7 @@ pub fn run(kind: &str, i: &Input) -> String {
         "vm_op" => vm_op(i),
         "asm_bytes" => asm_bytes(i),
         "vm_prog" => vm_prog(i),
+        "vm_io" => vm_io(i),
         "vm_mapped" => vm_mapped(i),
         "check_graph" => check_graph(i),
         "check_set" => check_set_kind(i),
@@ -482,4 +483,57 @@ fn vm_mapped(i: &Input) -> String {
         out += &format!("rebuilt_equal={}\n", rebuilt.bytecode() == &bs[..] && rebuilt.op_indices() == m.op_indices());
     }
     out + "result=ok\n"
+}
+
+/// scripted state: records every request, answers with a fixed list of values or an error
+pub struct ScriptState { pub tag: &'static str, pub ret: Option<Vec<Vec<i64>>>, pub log: std::sync::Mutex<Vec<String>> }
+impl essential_vm::StateRead for ScriptState {
+    type Error = String;
+    fn key_range(&self, c: ContentAddress, k: Vec<i64>, n: usize) -> Result<Vec<Vec<i64>>, String> {
+        self.log.lock().unwrap().push(format!("{}|{}|{}|{}", self.tag, fmt_bytes(&c.0), fmt_words(&k), n));
+        self.ret.clone().ok_or_else(|| "scripted state error".to_string())
+    }
+}
+pub struct TwoViews(pub ScriptState, pub ScriptState);
+impl essential_vm::StateReads for TwoViews {
+    type Error = String;
+    type Pre = ScriptState;
+    type Post = ScriptState;
+    fn pre(&self) -> &ScriptState { &self.0 }
+    fn post(&self) -> &ScriptState { &self.1 }
+}
+
+/// one op with configurable solutions / state: `solution_data=w w|w;..` per solution `sol0`, `sol1`;
+/// `contractK`/`predicateK` = 32 bytes; `state_ret=err` or `v v;v`
+fn vm_io(i: &Input) -> String {
+    let op = op_by_name(get(i, "op"), 0);
+    let mut sols = vec![];
+    let mut k = 0;
+    while i.contains_key(&format!("sol{k}")) {
+        let mut c = [0u8; 32]; let mut p = [0u8; 32];
+        for (j, b) in bytes(get(i, &format!("contract{k}"))).into_iter().enumerate().take(32) { c[j] = b; }
+        for (j, b) in bytes(get(i, &format!("predicate{k}"))).into_iter().enumerate().take(32) { p[j] = b; }
+        let data = if get(i, &format!("sol{k}")) == "none" { vec![] } else {
+            get(i, &format!("sol{k}")).split('|').filter(|x| *x != "-").map(words).collect::<Vec<_>>() };
+        sols.push(Solution { predicate_to_solve: PredicateAddress { contract: ContentAddress(c), predicate: ContentAddress(p) }, predicate_data: data, state_mutations: vec![] });
+        k += 1;
+    }
+    if sols.is_empty() { sols = test_access().solutions.as_ref().clone(); }
+    let access = Access::new(Arc::new(sols), get(i, "index").parse().unwrap_or(0));
+    let ret = if get(i, "state_ret") == "err" { None } else {
+        Some(get(i, "state_ret").split(';').filter(|x| !x.is_empty()).map(|x| if x == "-" { vec![] } else { words(x) }).collect::<Vec<_>>()) };
+    let st = TwoViews(ScriptState { tag: "pre", ret: ret.clone(), log: Default::default() }, ScriptState { tag: "post", ret, log: Default::default() });
+    let mut vm = Vm::default();
+    vm.stack = Stack::try_from(words(get(i, "stack"))).expect("REPLAY-HARNESS: initial stack");
+    vm.memory = Memory::try_from(words(get(i, "memory"))).expect("REPLAY-HARNESS: initial memory");
+    let r = vm.exec_ops(&[op], access, &st, &|_: &Op| 1, GasLimit::UNLIMITED);
+    let mut out = String::new();
+    match r {
+        Ok(_) => out += "result=ok\n",
+        Err(e) => out += &format!("result=err\nerr={}\n", format!("{:?}", e.1).replace('\n', " ")),
+    }
+    let mut log = st.0.log.lock().unwrap().clone();
+    log.extend(st.1.log.lock().unwrap().clone());
+    out += &format!("stack={}\nmemory={}\nrequests={}\n", fmt_words(&vm.stack), fmt_words(&vm.memory), log.join(";;"));
+    out
 }
